@@ -336,7 +336,7 @@ fn context_cases() -> Vec<(String, usize, usize)> {
                 let fun = format!("fun takes k\n{}give back k\n\n", b);
                 let text = format!("put \"i\" into x\n{}", c.replace("@F", &fun).replace("@B", b).replace("@T", t));
                 for &i in CONTEXT_INPUTS {
-                    v.push((text.clone(), 3usize, i));
+                    v.push((text.clone(), 4usize, i)); // deviation bound as for a 4-statement program: 2 (quick), 3 (thorough)
                 }
             }
         }
